@@ -137,6 +137,14 @@ def _format(rng):
         range_classes=("custom", "custom", "custom", "custom", "preset"),
         regular=rng.random() < 0.7,
     )
+    if rng.random() < 0.0025:
+        # a full-size picture once in a while (components of more than 65 536 samples, heights that are not a multiple
+        # of any convenient band size): whatever the writer does in chunks shows only here
+        w, h = rng.choice([(352, 288), (300, 300), (720, 100), (260, 256), (1024, 68)])
+        vp = fmt["vp"]
+        vp["frame_width"], vp["frame_height"] = w, h
+        vp["clean_width"], vp["clean_height"], vp["left_offset"], vp["top_offset"] = w, h, 0, 0
+        fmt["strata"]["size"] = "large"
     return fmt["vp"], fmt["pcm"], fmt["strata"]
 
 
